@@ -26,7 +26,7 @@ Compatible     == <<DefaultVersion>>
 AllowNil(id) == FALSE
 
 Elems(s)       == { s[i] : i \in DOMAIN s }
-Contains(s, x) == \E i \in DOMAIN s : s[i] = x
+HasElem(s, x) == \E i \in DOMAIN s : s[i] = x
 Blank(s)       == s \in {"", " ", "  "}              \* strings.TrimSpace(s) = ""
 
 \* ValidateVersion: identifier not blank, no blank feature (the 100-feature limit is outside the alphabet)
@@ -44,7 +44,7 @@ FindIdx(id, vs) ==
 VerifyProposed(sup, prop) ==
     /\ prop.id = sup.id
     /\ (Len(prop.f) = 0 => AllowNil(prop.id))
-    /\ \A i \in DOMAIN prop.f : Contains(sup.f, prop.f[i])
+    /\ \A i \in DOMAIN prop.f : HasElem(sup.f, prop.f[i])
 
 \* IsSupportedVersion: "true if the proposed version has a matching version identifier and its entire feature set
 \* is supported or the version identifier supports an empty feature set"
@@ -52,11 +52,11 @@ IsSupported(vs, prop) ==
     LET i == FindIdx(prop.id, vs) IN i # 0 /\ VerifyProposed(vs[i], prop)
 
 \* VerifySupportedFeature(version, feature)
-SupportsFeature(v, feat) == Contains(v.f, feat)
+SupportsFeature(v, feat) == HasElem(v.f, feat)
 
 \* GetFeatureSetIntersection: "iterating over all the features in the source version and seeing if they exist in
 \* the feature set for the counterparty version" (order and multiplicity of the source list)
-FeatInter(src, cp) == SelectSeq(src, LAMBDA x : Contains(cp, x))
+FeatInter(src, cp) == SelectSeq(src, LAMBDA x : HasElem(cp, x))
 
 \* PickVersion: "iterates over the descending ordered set of compatible IBC versions and selects the first version
 \* with a version identifier that is supported by the counterparty.  The returned version contains a feature set
